@@ -11,7 +11,7 @@
         Inv b => a before b), the sequential specification (nxt, acc) from s0 accepts every
         result in that order, and the state it ends in satisfies fin *)
 From Coq Require Import List NArith ZArith Bool Permutation.
-From SW Require Import model.Volume model.VolumeConc proof.VolumeProofs proof.VolumeConcProofs.
+From SW Require Import model.Volume model.VolumeConc proof.VolumeProofs proof.VolumeConcProofs proof.VolumeConcReg.
 Import ListNotations.
 Local Open Scope N_scope.
 
@@ -32,12 +32,14 @@ Theorem c38_apply_between_inv_res : forall st0 stop sched m a,
 Proof. exact machine_apply_between. Qed.
 Print Assumptions c38_apply_between_inv_res.
 
-(* W.r.t. the per-key register specification of C01 (id -> cookie, last written needle): every
-   complete history from an empty volume (either read-only flag set or not) is linearizable,
-   and every read of the final volume (any key, cookie, time) answers what the register state of
-   that order expects.  Inside the hypotheses of C01's refinement (c01_refines_partial), stated
-   order-independently: needles representable and non-empty, no two writes with the same
-   id+cookie+bytes but other metadata. *)
+(* W.r.t. the per-key register specification of C01 WITH EVERY ANSWER FIELD (id -> cookie, last
+   written needle; reg_acc = Volume.xmatch (xexpect ...): error class, the "unchanged"
+   acknowledgement and n.Size of a write, the size a delete returns = Size of the needle that was
+   live / 0, count and every field of a read): every complete history from an empty volume (either
+   read-only flag set or not) is linearizable, and every read of the final volume (any key,
+   cookie, time) answers what the register state of that order expects.  Inside the hypotheses of
+   C01's refinement (c01_refines_partial), stated order-independently: needles representable and
+   non-empty, no two writes with the same id+cookie+bytes but other metadata. *)
 Theorem c38_linearizable_register_partial : forall a b stop sched m,
   mrun (minit (init_flags a b) stop) sched = Some m -> complete m = true ->
   conc_ok (map o_op (history m)) = true ->
@@ -45,13 +47,35 @@ Theorem c38_linearizable_register_partial : forall a b stop sched m,
 Proof. exact machine_linearizable_reg. Qed.
 Print Assumptions c38_linearizable_register_partial.
 
-(* Without the non-empty hypothesis the register statement is false already for a sequential
-   schedule (C01's finding 0: a zero-byte needle is served to any cookie). *)
+(* The specification above accepts no more than the one this theorem was stated with before
+   (C01's first-round match_out: error classes only; reg_acc0). *)
+Theorem c38_register_spec_stronger : forall sp0 (fin : spec -> Prop) (h : hist),
+  linearizable reg_nxt reg_acc sp0 fin h -> linearizable reg_nxt reg_acc0 sp0 fin h.
+Proof. exact reg_lin_weaken. Qed.
+Print Assumptions c38_register_spec_stronger.
+
+(* PER KEY, with no hypothesis beyond representable needles: the specification state also tracks
+   the keys that a finding of C01 has touched so far in the order (Volume.dirty_step: an
+   empty-payload write = finding 0, a metadata-only rewrite = finding 1, any later call on such a
+   key); only the answers of calls on those keys are left open.  A finding on one key excuses
+   nothing on any other key, neither during the run nor in the reads afterwards. *)
+Theorem c38_linearizable_per_key_partial : forall a b stop sched m,
+  mrun (minit (init_flags a b) stop) sched = Some m -> complete m = true ->
+  wf_history (map o_op (history m)) = true ->
+  linearizable pk_nxt pk_acc (pk_init (spec_flags a b)) (agrees_pk (m_vol m)) (history m).
+Proof. exact machine_linearizable_pk. Qed.
+Print Assumptions c38_linearizable_per_key_partial.
+
+(* Without the non-empty hypothesis the all-keys statement is false already for a sequential
+   schedule (C01's finding 0: a zero-byte needle is served to any cookie), for the first-round
+   acceptance and a fortiori for the every-field one. *)
 Theorem c38_linearizable_register_refuted :
   exists stop sched m,
-    mrun (minit init stop) sched = Some m /\ complete m = true /\
+    mrun (minit (init_flags false false) stop) sched = Some m /\ complete m = true /\
     wf_history (map o_op (history m)) = true /\ pairwise_nc (needles_of (map o_op (history m))) = true /\
-    ~ linearizable reg_nxt reg_acc spec_init (fun _ => True) (history m).
+    ~ linearizable reg_nxt reg_acc0 (spec_flags false false) (fun _ => True) (history m) /\
+    ~ linearizable reg_nxt reg_acc (spec_flags false false) (fun _ => True) (history m) /\
+    conc_finding (map o_op (history m)) = Some 0.
 Proof. exact register_refuted. Qed.
 Print Assumptions c38_linearizable_register_refuted.
 
@@ -62,6 +86,13 @@ Theorem c38_volume_order_is_register_order : forall a b (h : hist) V,
   linearizable reg_nxt reg_acc (spec_flags a b) (agrees V) h.
 Proof. exact vol_lin_to_reg. Qed.
 Print Assumptions c38_volume_order_is_register_order.
+
+Theorem c38_volume_order_is_per_key_order : forall a b (h : hist) V,
+  wf_history (map o_op h) = true ->
+  linearizable vol_nxt vol_acc (init_flags a b) (fun st => st = V) h ->
+  linearizable pk_nxt pk_acc (pk_init (spec_flags a b)) (agrees_pk V) h.
+Proof. exact vol_lin_to_pk. Qed.
+Print Assumptions c38_volume_order_is_per_key_order.
 
 (* The decision procedure (depth-first search over the orders that respect real time) is sound
    and complete, for every sequential specification and every history length. *)
@@ -79,18 +110,43 @@ Theorem c38_lin_check_complete : forall (Op Out St : Type) (nxt : St -> Op -> St
 Proof. exact @lin_check_complete. Qed.
 Print Assumptions c38_lin_check_complete.
 
-(* the two instances evaluated by the correspondence check *)
-Theorem c38_lin_check_reg_sound : forall fr (h : hist),
-  lin_check_reg fr h = true ->
-  linearizable reg_nxt reg_acc spec_init (fun sp => agrees_on fr sp = true) h.
+(* the three instances evaluated by the correspondence check (a b = the read-only flags of the
+   volume as loaded): sound and complete *)
+Theorem c38_lin_check_reg_sound : forall a b fr (h : hist),
+  lin_check_reg a b fr h = true ->
+  linearizable reg_nxt reg_acc (spec_flags a b) (fun sp => agrees_on fr sp = true) h.
 Proof. exact lin_check_reg_sound. Qed.
 Print Assumptions c38_lin_check_reg_sound.
 
-Theorem c38_lin_check_vol_sound : forall fd fn (h : hist),
-  lin_check_vol fd fn h = true ->
-  linearizable vol_nxt vol_acc init (fun st => vol_final fd fn st = true) h.
+Theorem c38_lin_check_reg_complete : forall a b fr (h : hist),
+  linearizable reg_nxt reg_acc (spec_flags a b) (fun sp => agrees_on fr sp = true) h ->
+  lin_check_reg a b fr h = true.
+Proof. exact lin_check_reg_complete. Qed.
+Print Assumptions c38_lin_check_reg_complete.
+
+Theorem c38_lin_check_vol_sound : forall a b f (h : hist),
+  lin_check_vol a b f h = true ->
+  linearizable vol_nxt vol_acc (init_flags a b) (fun st => vol_final f st = true) h.
 Proof. exact lin_check_vol_sound. Qed.
 Print Assumptions c38_lin_check_vol_sound.
+
+Theorem c38_lin_check_vol_complete : forall a b f (h : hist),
+  linearizable vol_nxt vol_acc (init_flags a b) (fun st => vol_final f st = true) h ->
+  lin_check_vol a b f h = true.
+Proof. exact lin_check_vol_complete. Qed.
+Print Assumptions c38_lin_check_vol_complete.
+
+Theorem c38_lin_check_pk_sound : forall a b fr (h : hist),
+  lin_check_pk a b fr h = true ->
+  linearizable pk_nxt pk_acc (pk_init (spec_flags a b)) (fun s => agrees_on_pk fr s = true) h.
+Proof. exact lin_check_pk_sound. Qed.
+Print Assumptions c38_lin_check_pk_sound.
+
+Theorem c38_lin_check_pk_complete : forall a b fr (h : hist),
+  linearizable pk_nxt pk_acc (pk_init (spec_flags a b)) (fun s => agrees_on_pk fr s = true) h ->
+  lin_check_pk a b fr h = true.
+Proof. exact lin_check_pk_complete. Qed.
+Print Assumptions c38_lin_check_pk_complete.
 
 (* Linearizability does not depend on the order in which the calls of a history are listed. *)
 Theorem c38_linearizable_perm : forall (Op Out St : Type) (nxt : St -> Op -> St) (acc : St -> Op -> Out -> bool)
@@ -99,14 +155,18 @@ Theorem c38_linearizable_perm : forall (Op Out St : Type) (nxt : St -> Op -> St)
 Proof. exact @linearizable_perm. Qed.
 Print Assumptions c38_linearizable_perm.
 
-(* "admits": whatever the machine can produce from an empty volume -- the history, the final
-   .dat size, the needle-map entries, reads made afterwards -- passes both checks. *)
-Theorem c38_machine_admitted : forall stop sched m keys fn,
-  mrun (minit init stop) sched = Some m -> complete m = true ->
+(* "admits": whatever the machine can produce from an empty volume (flags as loaded) -- the
+   history, the final .dat size, the sequence of .dat records, the needle-map entries, reads made
+   afterwards with every field -- passes the volume check; inside C01's hypotheses the all-keys
+   register check; with representable needles the per-key register check. *)
+Theorem c38_machine_admitted : forall a b stop sched m keys fn,
+  mrun (minit (init_flags a b) stop) sched = Some m -> complete m = true ->
   forallb (nm_entry_eqb (m_vol m)) fn = true ->
-  lin_check_vol (dat_end (m_vol m)) fn (history m) = true /\
+  lin_check_vol a b (obs_of (m_vol m) fn keys) (history m) = true /\
   (conc_ok (map o_op (history m)) = true ->
-   lin_check_reg (map (read_after (m_vol m)) keys) (history m) = true).
+   lin_check_reg a b (map (read_after (m_vol m)) keys) (history m) = true) /\
+  (wf_history (map o_op (history m)) = true ->
+   lin_check_pk a b (map (read_after (m_vol m)) keys) (history m) = true).
 Proof. exact machine_admitted. Qed.
 Print Assumptions c38_machine_admitted.
 
@@ -122,17 +182,72 @@ Theorem c38_write_section_is_do_write : forall st0 stop sched m n t,
 Proof. exact machine_write_is_do_write. Qed.
 Print Assumptions c38_write_section_is_do_write.
 
+(* The checkers do say no.  A read that returns the first of two completed writes is rejected
+   when it starts after the second write returned and accepted when it overlaps it. *)
+Example c38_stale_read_rejected :
+  lin_check_reg false false [] (h_stale 6) = false /\
+  lin_check vol_nxt vol_acc init (fun _ => true) (h_stale 6) = false /\
+  lin_check_reg false false [] (h_stale 4) = true /\
+  lin_check vol_nxt vol_acc init (fun _ => true) (h_stale 4) = true.
+Proof. exact stale_read_rejected. Qed.
+Print Assumptions c38_stale_read_rejected.
+
+(* Two overlapping deletes of one live needle that both return its size (what seeded change C38-a,
+   syncDelete under RLock, produces) are rejected by both checkers; the error-class-only
+   acceptance used before the audit lets them pass; with the second returning 0: accepted. *)
+Example c38_double_delete_rejected :
+  lin_check_reg false false [] (h_double_delete 6%Z) = false /\
+  lin_check vol_nxt vol_acc init (fun _ => true) (h_double_delete 6%Z) = false /\
+  lin_check reg_nxt reg_acc0 spec_init (fun _ => true) (h_double_delete 6%Z) = true /\
+  lin_check_reg false false [] (h_double_delete 0%Z) = true /\
+  lin_check vol_nxt vol_acc init (fun _ => true) (h_double_delete 0%Z) = true.
+Proof. exact double_delete_rejected. Qed.
+Print Assumptions c38_double_delete_rejected.
+
+Theorem c38_double_delete_not_linearizable :
+  ~ linearizable reg_nxt reg_acc spec_init (fun _ => True) (h_double_delete 6%Z).
+Proof. exact double_delete_not_linearizable. Qed.
+Print Assumptions c38_double_delete_not_linearizable.
+
+(* Per key: finding 0 on key 1 excuses the wrong-cookie read of key 1 (all-keys check fails,
+   per-key check passes) but not a stale read of key 2 in the same history. *)
+Example c38_per_key_not_excused :
+  lin_check_reg false false [] (h_two_keys false) = false /\
+  lin_check_pk false false [] (h_two_keys false) = true /\
+  lin_check_pk false false [] (h_two_keys true) = false /\
+  conc_finding (map o_op (h_two_keys true)) = Some 0.
+Proof. exact per_key_not_excused. Qed.
+Print Assumptions c38_per_key_not_excused.
+
 (* non-vacuity: a schedule with both write paths, a batch of two applied in channel order (not
-   invocation order), a read that overlaps the batch and sees the second applied write, a delete,
-   a second key; complete, inside the hypotheses, accepted by both checkers *)
+   invocation order), a read that overlaps the batch and sees the second applied write, a delete
+   (returns the live size 6), a second key; complete, inside the hypotheses, accepted by the
+   three checkers with the final observables *)
 Example c38_example :
-  let m := final_of true sched_example in
-  mrun (minit init true) sched_example = Some m /\ complete m = true /\
+  let m := final_of false false true sched_example in
+  mrun (minit (init_flags false false) true) sched_example = Some m /\ complete m = true /\
   conc_ok (map o_op (history m)) = true /\
   map (fun a => (o_id a, o_inv a, o_res a)) (history m) =
     [(5, 39, 45); (6, 40, 46); (4, 14, 38); (3, 24, 27); (2, 2, 23); (0, 0, 22); (1, 1, 18)] /\
   map (fun a => match o_out a with ORead e _ v => Some (err_eqb e ENone, v_data v) | _ => None end) (history m) =
     [Some (false, []); Some (true, [67]); None; None; Some (true, [65]); None; None] /\
-  lin_check_reg (map (read_after (m_vol m)) [(1, 5); (2, 7)]) (history m) = true /\
-  lin_check_vol (dat_end (m_vol m)) [] (history m) = true.
+  map (fun a => match o_out a with ODelete _ z => Some z | _ => None end) (history m) =
+    [None; None; None; Some 6%Z; None; None; None] /\
+  lin_check_reg false false (map (read_after (m_vol m)) [(1, 5); (2, 7)]) (history m) = true /\
+  lin_check_pk false false (map (read_after (m_vol m)) [(1, 5); (2, 7)]) (history m) = true /\
+  lin_check_vol false false (obs_of (m_vol m) [(1, Some (48, (-6)%Z)); (2, Some (120, 6%Z)); (3, None)] [(1, 5); (2, 7)]) (history m) = true.
 Proof. exact example_ok. Qed.
+Print Assumptions c38_example.
+
+(* a volume loaded read-only (noWriteOrDelete): write and delete refused before any lock, the read
+   finds nothing, calls overlap; accepted with the flag, rejected without it *)
+Example c38_example_read_only :
+  let m := final_of true false true sched_ro in
+  mrun (minit (init_flags true false) true) sched_ro = Some m /\ complete m = true /\
+  map o_out (history m) =
+    [ORead ENotFound (-1)%Z (blank_view 5); OWrite EReadOnly false 0; ODelete EReadOnly 0%Z] /\
+  lin_check_reg true false (map (read_after (m_vol m)) [(1, 5)]) (history m) = true /\
+  lin_check_vol true false (obs_of (m_vol m) [(1, None)] [(1, 5)]) (history m) = true /\
+  lin_check_vol false false (obs_of (m_vol m) [(1, None)] [(1, 5)]) (history m) = false.
+Proof. exact example_ro_ok. Qed.
+Print Assumptions c38_example_read_only.
